@@ -237,7 +237,7 @@ def binding_check_last(ctx, hist, obs, drivers, report=True):
             stale = any(got_np == str(e[1]) for e in earlier)
             viol("nprocs", "settings-of-other-driver" if stale else "wrong-value", f"JobInput built through a driver with nprocs={nprocs} carries -P {got_np}")
         if got_env != exp_env:
-            stale = any(set(tuple(sorted((e[2] or {}).items()))) & (set(got_env) - set(exp_env)) for e in earlier)
+            stale = any(got_env == tuple(sorted((e[2] or {}).items())) or set((e[2] or {}).items()) & (set(got_env) - set(exp_env)) for e in earlier)
             viol("envars", "settings-of-other-driver" if stale else "wrong-value", f"JobInput built through a driver with envars={envars!r} carries {dict(got_env)!r}")
         kw = "other " if jname == "other" else ""
         want = f"echo {kw}tag{step} {step}" + (" > res.txt" if jname != "other" else "")
@@ -265,46 +265,67 @@ print(d2.task.prepare("y"))   # expected bash -P 7, {'A': 'seven'}; observed: sh
 """
 
 
-def run_binding(ctx, seed):
-    thorough = ctx.thorough
-    max_uses = 5 if thorough else 4
+def binding_parts(ctx, seed):
+    """Partition of part A: one part per creation order.  Orders of 3 drivers run to U3 uses, orders of
+    2 drivers to U2 > U3 uses; a history that two parts generate (a common prefix) is counted and
+    reported by exactly one of them."""
+    u3, u2 = (4, 5) if ctx.thorough else (3, 4)
     jobs = list(JOBS)
     r = seed % len(jobs)
     jobs = jobs[r:] + jobs[:r]
-    total = 0
-    bad_prefix: set = set()
-    done: set = set()
-    nhist = 0
-    for n in (2, 3):
+    parts = []
+    for n, uses in ((2, u2), (3, u3)):
         orders = list(itertools.permutations(range(len(SETTINGS)), n))
         ro = seed % len(orders)
-        orders = orders[ro:] + orders[:ro]
-        for order in orders:
-            uses = max_uses if n == 2 else max_uses - 1
-            jset = jobs if n == 2 else jobs[:2] if not thorough else jobs
-            for hist in binding_histories(n, uses, jset, order):
-                # do not continue a history after a violating step
-                if hist in done or any(hist[:k] in bad_prefix for k in range(1, len(hist))):
-                    continue
-                done.add(hist)
-                obs, drivers = binding_exec(hist)
-                nhist += 1
-                ctx.count(evaluations=1, traces=1, transitions=len(hist), states=1)
-                ok = binding_check_last(ctx, hist, obs, drivers)
-                if not ok:
-                    bad_prefix.add(hist)
-                    continue
-                nnew = sum(1 for x in hist if x[0] == "new")
-                if nnew >= 2 and hist[-1][0] != "new":
-                    ctx.nontrivial(("A", hist))
-                ctx.outcome(("A", hashlib.sha1(repr(obs).encode()).hexdigest()[:12]))
-                total += 1
-                if total in (40, 4000):
-                    ctx.sample({"part": "A", "history": [list(x) for x in hist], "observed_last": repr(obs[-1])[:300]})
-    ctx.note("A_histories_executed", nhist)
-    ctx.note("A_histories_without_violation", total)
+        # the deep 2-driver histories of the quick tier use one plain and the vectorised job
+        jj = jobs if (ctx.thorough or n == 3) else [j for j in jobs if j in ("single", "many")]
+        for order in orders[ro:] + orders[:ro]:
+            parts.append(("A", n, order, uses, u3, jj))
     ctx.bound["A_drivers"] = "2..3"
-    ctx.bound["A_max_uses"] = max_uses
+    ctx.bound["A_max_uses"] = {"2 drivers": u2, "3 drivers": u3}
+    ctx.bound["A_jobs"] = {"3 drivers": list(JOBS), "2 drivers": list(JOBS) if ctx.thorough else ["single", "many"]}
+    return parts
+
+
+def _owned(hist, n, order, u3):
+    created = [op[1] for op in hist if op[0] == "new"]
+    nuses = len(hist) - len(created)
+    others = sorted(set(range(len(SETTINGS))) - {order[0]})
+    if n == 3:
+        return len(created) >= 2 or order[1] == others[0]
+    if nuses <= u3:
+        return False  # a prefix of a 3-driver history
+    return len(created) >= 2 or order[1] == others[0]
+
+
+def run_binding_part(ctx, part):
+    _, n, order, uses, u3, jobs = part
+    bad_prefix: set = set()
+    total = nhist = 0
+    for hist in binding_histories(n, uses, jobs, order):
+        # do not continue a history after a violating step
+        if any(hist[:k] in bad_prefix for k in range(1, len(hist))):
+            continue
+        own = _owned(hist, n, order, u3)
+        obs, drivers = binding_exec(hist)
+        ok = binding_check_last(ctx, hist, obs, drivers, report=own)
+        if not ok:
+            bad_prefix.add(hist)
+        if not own:
+            continue
+        nhist += 1
+        ctx.count(evaluations=1, traces=1, transitions=len(hist), states=1)
+        if not ok:
+            continue
+        nnew = sum(1 for x in hist if x[0] == "new")
+        if nnew >= 2 and hist[-1][0] != "new":
+            ctx.nontrivial(("A", hist))
+        ctx.outcome(("A", hashlib.sha1(repr(obs).encode()).hexdigest()[:12]))
+        total += 1
+        if total == 60 and order[0] == 0 and order[1] == 1:
+            ctx.sample({"part": "A", "history": [list(x) for x in hist], "observed_last": repr(obs[-1])[:300]})
+    ctx.add_note("A_histories_executed", nhist)
+    ctx.add_note("A_histories_without_violation", total)
 
 
 # =================================================================================================
@@ -509,7 +530,7 @@ def execute(ctx, spec, via, wd: Path):
         if "Traceback (most recent call last)" in et:
             last = [l for l in et.strip().splitlines() if l and not l.startswith(" ")][-1]
             obs["exc"] = last.split(":")[0].strip().split(".")[-1]
-            obs["exc_msg"] = last[:120]
+            obs["exc_msg"] = last.split(":", 1)[1].strip()[:120] if ":" in last else ""
     # ---- collect
     of = odir / "case.out"
     obs["out"] = None
@@ -528,14 +549,14 @@ def execute(ctx, spec, via, wd: Path):
     obs["envs"] = {}
     for p in mdir.iterdir():
         if p.name.startswith("cwd"):
-            obs["cwds"][int(p.name[3:])] = p.read_text().strip()
+            obs["cwds"][int(p.name[3:])] = os.path.realpath(p.read_text().rstrip("\n"))
         elif p.name.startswith("read"):
             obs["reads"][int(p.name[4:])] = p.read_bytes()
         elif p.name.startswith("env"):
             obs["envs"][int(p.name[3:])] = p.read_text()
     obs["residue"] = sorted(p.name for p in sdir.iterdir())
-    obs["home"] = str(home)
-    obs["sdir"] = str(sdir)
+    obs["home"] = os.path.realpath(home)
+    obs["sdir"] = os.path.realpath(sdir)
     return obs
 
 
@@ -557,7 +578,7 @@ def check_exec(ctx, spec, obs, case):
         viol(
             "exception-escapes",
             f"{obs['exc']}:{spec_class(spec)}",
-            f"run_local raised {obs['exc']}: {obs.get('exc_msg','')} ({spec_class(spec)})",
+            f"run_local raised {obs['exc']}: {obs.get('exc_msg','')} ({spec_class(spec)}; via {obs['via']})",
             repro=NONE_REPRO if spec["ret"] is None else None,
         )
         return nv  # everything else is consequential
@@ -672,7 +693,7 @@ def enumerate_specs(ctx, seed):
         masks = naming_masks(n, full=(ctx.thorough and n <= 3) or n <= 2)
         rr = rets
         if not ctx.thorough and n == 3:
-            masks = masks[:3]  # all named, none named, alternating
+            masks = [masks[0], masks[2]]  # all named, alternating (none named: lengths 1, 2 and 4)
             rr = [x for x in rets if x != ("b.bin",)]  # b.bin alone mirrors a.dat alone
         for cmds in itertools.product(kinds, repeat=n):
             specs.extend(specs_for(cmds, masks, rr))
@@ -734,6 +755,12 @@ def spec_key(spec, via):
     return (via, tuple(spec["cmds"]), tuple(spec["named"]), None if spec["ret"] is None else tuple(spec["ret"]), spec["infile"], spec["env"])
 
 
+def run_part(sub, part):
+    if part[0] == "A":
+        return run_binding_part(sub, part)
+    return run_cases(sub, part)
+
+
 def run_cases(sub, part):
     via, specs = part
     wd = Path(sub.scratch) / "wd"
@@ -776,16 +803,15 @@ def chunks(lst, n):
     return [lst[i : i + size] for i in range(0, len(lst), size)] if lst else []
 
 
-def run_execution(ctx, seed):
+def execution_parts(ctx, seed):
     specs = enumerate_specs(ctx, seed)
     conf = conformance_specs(ctx, specs, seed)
     nproc = 16 if ctx.thorough else 8
-    parts = [("inproc", c) for c in chunks(specs, nproc * 4)] + [("script", c) for c in chunks(conf, nproc * 2 if ctx.thorough else len(conf))]
     # subprocess cases first: they are the slow ones
-    parts.sort(key=lambda p: 0 if p[0] == "script" else 1)
-    ctx.pmap(run_cases, parts)
+    parts = [("script", c) for c in chunks(conf, nproc * 2 if ctx.thorough else len(conf))] + [("inproc", c) for c in chunks(specs, nproc * 4)]
     ctx.note("B_cases_inprocess", len(specs))
     ctx.note("B_cases_through_installed_script", len(conf))
+    return parts
 
 
 # =================================================================================================
@@ -807,8 +833,10 @@ def run(ctx):
         "command names are pairwise distinct and differ from file names",
         "the job-level settings (Job(executable=..., envars=...)) and class-level driver attributes are not part of the enumerated space: the harness driver declares neither, like XTBDriver",
     ]
-    run_binding(ctx, seed)
-    run_execution(ctx, seed)
+    parts = execution_parts(ctx, seed)
+    nscript = sum(1 for p in parts if p[0] == "script")
+    parts = parts[:nscript] + binding_parts(ctx, seed) + parts[nscript:]
+    ctx.pmap(run_part, parts, nproc=16 if ctx.thorough else 8)
 
 
 def replay(ctx, case):
